@@ -2,7 +2,7 @@ import sys, shutil, json
 sys.path.insert(0,'/verif')
 from tools.seeded import scratch_with_patch, run_on
 name=sys.argv[1]
-tmp=scratch_with_patch(f'/verif/selftest/{"refactorings4" if name.startswith("U") else "refactorings3" if name.startswith("T") else ("refactorings2" if name.startswith("S") else "refactorings")}/{name}/patch.diff')
+tmp=scratch_with_patch(f'/verif/selftest/{"refactorings5" if name.startswith("V") else "refactorings4" if name.startswith("U") else "refactorings3" if name.startswith("T") else ("refactorings2" if name.startswith("S") else "refactorings")}/{name}/patch.diff')
 try:
     res=run_on(tmp)
 finally:
